@@ -212,7 +212,7 @@ def check_property(prop: str, tier: str, seed: int, level: str = "proof") -> int
                 if k["key"] == f.get("key") and _in_known_class(k, f.get("inputs", {})):
                     kf = k
             if kf:
-                known_hits.setdefault(kf["key"], kf["what"])
+                known_hits.setdefault(kf["key"] + (f" [{kf['except']}]" if kf["except"] else ""), kf["what"])
             else:
                 native_fail.append((r["name"], f))
 
